@@ -8,6 +8,7 @@ button); it is compiled and run by the real pipeline against SimLan in state S1;
 (spec/TraceSnapshot.tla) decides light by light whether the captured parts were restored.
 """
 import os
+import sys
 import random
 import shutil
 import tempfile
@@ -97,6 +98,21 @@ def capture(pop, via_web, problems, rid):
         except BaseException as ex:
             problems.append((rid, 'capture-raises', 'ScriptSnapshot().generate(None) raised %r' % (ex,)))
             return None
+        # the capture command itself: what `lscap -s` writes on standard output is the script that gets replayed
+        # (main() builds its own injection universe; the simulated lifxlan layer stays in place)
+        import contextlib, io
+        from bardolph.controller import snapshot as snapshot_module
+        buf, argv = io.StringIO(), sys.argv
+        sys.argv = ['lscap', '-s']
+        try:
+            with contextlib.redirect_stdout(buf):
+                snapshot_module.main()
+            cli_text = buf.getvalue()
+        except BaseException as ex:
+            problems.append((rid, 'capture-raises', '`lscap -s` (snapshot.main) raised %r' % (ex,)))
+            return None
+        finally:
+            sys.argv = argv
         if via_web:
             tmp = tempfile.mkdtemp(prefix='c18-', dir=os.path.join(core.VERIF, '.scratch'))
             try:
@@ -113,7 +129,7 @@ def capture(pop, via_web, problems, rid):
                 world2.close()
             finally:
                 shutil.rmtree(tmp, ignore_errors=True)
-        return text
+        return cli_text
     finally:
         world.close()
 
